@@ -1,3 +1,5 @@
 SPECIFICATION Spec
 INVARIANT C17_Kepler
+PROPERTY UpdateUsesCurrentMasses
+PROPERTY MassChangeStoresNothing
 CHECK_DEADLOCK FALSE
